@@ -166,17 +166,24 @@ CLAIMED = {
    text="PooledClient read methods with ignore_exc: for any Exception-class failure of the inner call the method does not raise and "
         "returns exactly the miss value, which is computed by executing the real Client method on an empty fetch result; the slot is "
         "returned and the failed socket closed (C09).",
-   note="HashClient get/gat/gats/gets are covered the same way (failure, back-off and no-server all return the miss value; dep:C13 re-proves that nothing escapes). Client._fetch_cmd's own ignore_exc path is proved (empty result, connection dropped, never raises once the exchange started) and get/gets/gat/gats turn it into the miss value; the multi-key reads are not yet mechanised (NOT_COVERED).",
+   note="HashClient get/gat/gats/gets are covered the same way (failure, back-off and no-server all return the miss value; dep:C13 re-proves that nothing escapes); HashClient get_many/gets_many: only an input error can escape with ignore_exc, a failing or backed-off server contributes {} to the merge. Client._fetch_cmd's own ignore_exc path is proved (empty result, connection dropped, never raises once the exchange started) and get/gets/gat/gats turn it into the miss value; the multi-key reads are not yet mechanised (NOT_COVERED).",
    technique="contract-based deductive verification: exceptional postconditions over callee contracts (z3)",
    ref="5 C07"),
  "C12": dict(
    text="Every single-key HashClient method is executed symbolically from the real source with _run_cmd and _get_client inlined "
         "(hasher by its C11 contract, _safely_run_func by its C13 contract): on every path the routing key (the key, or the server-key "
         "of a pair) is validated, there is exactly one placement lookup with it, and the operation is performed on the client "
-        "registered for the placed node - which is in rotation - with the stripped key. So all single-key operations share one route.",
-   note="NOT COVERED: set_many/get_many/gets_many/delete_many (group-by invariants over maps of sequences not mechanised): 'get_many equals "
-        "the per-key gets' and 'exactly once' are not claimed. Trusted: C11/C13 contracts, client table keyed by node name.",
-   technique="contract-based deductive verification: routing VCs over callee contracts (z3)",
+        "registered for the placed node - which is in rotation - with the stripped key. So all single-key operations share one route. "
+        "Multi-key: _get_client under its own contract (proved from its body); get_many/gets_many/set_many with two loop invariants over a "
+        "ghost model of collections.defaultdict: after the routing loop the routed keys and the batch positions are in bijection (each key "
+        "exactly once, stripped, with its value, in the batch of the server placed for its routing key); batch servers are enumerated "
+        "without repetition; the exchange loop makes at most one inner call per batch, on that batch's own server's client, with exactly "
+        "that batch and the caller's arguments, and merges one answer per batch.",
+   note="Quantified invariants give no counter-models: an undecided multi-key VC is decided by a bounded replay on the real HashClient "
+        "(1..5 servers incl. UNIX, prefixes, pooling, key sets 0..50 with pairs; per-server logs). NOT COVERED: delete_many's thin loop; "
+        "set_many pairs sharing a stripped key; 'union of per-server answers = per-key gets' uses C11 as a lemma. Trusted: C11/C13 "
+        "contracts, A-defaultdict, client table keyed by node name.",
+   technique="contract-based deductive verification: routing VCs over callee contracts, group-by loop invariants over ghost arrays (z3/cvc5)",
    ref="5 C12"),
  "C13": dict(
    text="Representation invariant FW of the failover state machine plus per-transition contracts, all from the real source: "
@@ -185,10 +192,12 @@ CLAIMED = {
         "ValueError), _safely_run_func (contact at most once and only when healthy / retry window elapsed / at eviction; default and no "
         "state change inside the back-off window; success clears the record; only the server's own error escapes, never with "
         "ignore_exc; no other server leaves rotation), _retry_dead (nothing changes unless due; only servers dead longer than "
-        "dead_timeout are candidates; rotation only grows), and every single-key method (no-contact raise is only 'all servers down').",
+        "dead_timeout are candidates; rotation and client table only grow), _safely_run_set_many with _set_many inlined (same contact rule; a "
+        "connection failure is always recorded - the clause that exposed the ignore_exc defect repaired in /repo 450311b), and every "
+        "single-key method (no-contact raise is only 'all servers down').",
    note="The window bounds and recovery time are history-level consequences of these contracts; they are stated and exercised by the "
         "bounded replay (event sequences on the real HashClient) but the history induction is not mechanised. _retry_dead's 'never "
-        "raises' and the multi-key paths are not covered. Trusted: dict axioms, C11 contracts, injective node names, monotone clock.",
+        "raises' and the failed-key list of set_many are not covered. Trusted: dict axioms, C11 contracts, injective node names, monotone clock.",
    technique="contract-based deductive verification: representation invariant + transition contracts (z3, arrays + quantifiers)",
    ref="5 C13"),
  "C19": dict(
